@@ -277,3 +277,14 @@ package mhprimary
 //@   ensures @C17-done-closed closed(gc.done)
 //@   ensures @C17-cycle-waited gcDone == nil || waited(gcDone)
 //@   loop 0 invariant gc.stop == old(gc.stop) && gc.done == old(gc.done) && !closed(gc.done) && t != nil && fresh(t.C) && (gcDone == nil || fresh(gcDone))
+
+// Open / StartGC as seen by package store (OpenStore): opaque constructors.
+//@ func Open(path string, freeList *freelist.FreeList, fileCache *filecache.FileCache, maxFileSize uint32) (mp *MultihashPrimary, err error)
+//@   trusted T5 contract pending for the constructor body (header check, upgrade, last-file search); see DESIGN.md 10
+//@   fresh mp
+//@   ensures err == nil ==> mp != nil && !PS(mp).$closed && !PS(mp).$pending
+//@   ensures err != nil ==> mp == nil
+
+//@ func (mp *MultihashPrimary) StartGC(freeList *freelist.FreeList, interval time.Duration, timeLimit time.Duration, updateIndex UpdateIndexFunc)
+//@   trusted starts the collector goroutine (newGC); its body is verified separately (primaryGC.run)
+//@   modifies mp.gc
